@@ -90,6 +90,7 @@ def _c20_extra(e, run, tier):
 
 PROPS = {
     "C06": {
+        "pins": ['utils.strip_punct', 'utils.hash_sha256'],
         "contracts": ["a_common", "resolve"],
         "functions": RESOLVE_FUNCS,
         "assumptions": [A_HASH, DEFAULT_RESOLVERS, CIT_WF,
@@ -98,6 +99,7 @@ PROPS = {
         "not_covered": ["second half of share_iff_equal ('equal <=> same normalised volume, reporter, page, not placeholder') is C16's clause"],
     },
     "C07": {
+        "pins": ['utils.strip_punct', 'utils.hash_sha256'],
         "contracts": ["a_common", "resolve"],
         "functions": RESOLVE_FUNCS,
         "assumptions": [A_HASH, DEFAULT_RESOLVERS, CIT_WF,
@@ -107,6 +109,7 @@ PROPS = {
         "not_covered": [],
     },
     "C08": {
+        "pins": ['utils.strip_punct', 'utils.hash_sha256'],
         "contracts": ["a_common", "resolve"],
         "functions": RESOLVE_FUNCS,
         "assumptions": [A_HASH, DEFAULT_RESOLVERS, CIT_WF,
@@ -116,6 +119,7 @@ PROPS = {
         "extra_names": ["reads_only_current"],
     },
     "C02": {
+        "pins": ['models.CitationBase.__post_init__', 'models.ResourceCitation.__post_init__', 'helpers.get_court_by_paren'],
         "contracts": OFFSET_CONTRACTS,
         "functions": OFFSET_FUNCS,
         "assumptions": [PART_ASSUMPTION, NONL_ASSUMPTION, REGEX_LEMMAS,
@@ -126,6 +130,7 @@ PROPS = {
                         "markup mode (offsets w.r.t. the cleaned text) is covered under C19's offsets_valid clause"],
     },
     "C03": {
+        "pins": [],
         "contracts": ["a_common", "c18_helpers", "helpers", "filter"],
         "functions": ["helpers.overlapping_citations", "models.CitationBase.span", "models.CitationBase.full_span", "helpers.filter_citations"],
         "assumptions": ["every element of the list is a well-formed citation object (cit_wf)",
@@ -136,6 +141,7 @@ PROPS = {
                         "idempotence of filter_citations is checked by the bounded stand-in only"],
     },
     "C09": {
+        "pins": ['utils.is_balanced_html', 'utils.wrap_html_tags', 'annotate.SpanUpdater.get_diff_steps', 'annotate.SpanUpdater.get_diff_steps_builtin'],
         "contracts": ["a_common", "annotate"],
         "functions": ["annotate.SpanUpdater.__init__", "annotate.SpanUpdater.update", "utils.maybe_balance_style_tags", "annotate.annotate_citations"],
         "assumptions": ["the deletion formulation ('deleting the inserted strings restores the target') is replaced by the ghost `content`: the concatenation of the "
@@ -147,6 +153,7 @@ PROPS = {
         "not_covered": [],
     },
     "C10": {
+        "pins": ['utils.is_balanced_html', 'utils.wrap_html_tags', 'annotate.SpanUpdater.get_diff_steps', 'annotate.SpanUpdater.get_diff_steps_builtin'],
         "contracts": ["a_common", "annotate"],
         "functions": ["annotate.SpanUpdater.__init__", "annotate.SpanUpdater.update", "utils.maybe_balance_style_tags", "annotate.annotate_citations"],
         "assumptions": ["E-DIFF for both diff engines; E-BISECT", "clause A is proved for 'unchecked' mode without a source text (step clause emits_exact)",
@@ -154,6 +161,7 @@ PROPS = {
         "not_covered": ["clause C (each annotation encloses exactly the source characters of its plain span) needs minimality/uniqueness of the diff and is bounded (stand-in) only"],
     },
     "C11": {
+        "pins": ['utils.is_balanced_html', 'utils.wrap_html_tags', 'annotate.SpanUpdater.get_diff_steps', 'annotate.SpanUpdater.get_diff_steps_builtin'],
         "contracts": ["a_common", "annotate"],
         "functions": ["annotate.SpanUpdater.__init__", "annotate.SpanUpdater.update", "utils.maybe_balance_style_tags", "annotate.annotate_citations"],
         "assumptions": ["E-LXML: is_balanced_html is an uninterpreted predicate wf(s)",
@@ -161,8 +169,9 @@ PROPS = {
         "not_covered": ["the parse step itself (output parses under lxml) is checked by the bounded stand-in only"],
     },
     "C12": {
+        "pins": ['tokenizers.Tokenizer.extract_tokens', 'tokenizers.HyperscanTokenizer.extract_tokens', 'tokenizers.Tokenizer.append_text', 'tokenizers.Tokenizer.get_extractors', 'models.CitationToken.merge', 'models.CitationToken.__post_init__', 'models.TokenExtractor.get_matches', 'models.TokenExtractor.get_token'],
         "contracts": ["a_common", "helpers", "tokenizers"],
-        "functions": ["models.Token.merge", "tokenizers.token_is_from_nominative_reporter", "tokenizers.Tokenizer.tokenize"],
+        "functions": ["models.Token.from_match", "models.Token.merge", "tokenizers.token_is_from_nominative_reporter", "tokenizers.Tokenizer.tokenize"],
         "assumptions": ["CAND: every candidate token yielded by extract_tokens (both implementations) has 0 <= start <= end <= len(text) and its text is text[start:end] "
                         "(Token.from_match + E-RE-SPAN; the generator bodies and **extra construction are outside the subset; Hyperscan's own behaviour is C14)",
                         "append_text (split on single spaces, separators kept) is an assumed contract: the appended plain words concatenate to the given text (E-STR split/join)",
@@ -172,8 +181,10 @@ PROPS = {
         "not_covered": ["AhocorasickTokenizer.get_extractors / HyperscanTokenizer.extract_tokens bodies (C13 / C14)"],
     },
     "C16": {
-        "contracts": ["a_common", "resolve"],
-        "functions": ["models.ResourceCitation.corrected_reporter"],
+        "pins": ['utils.hash_sha256'],
+        "contracts": ["a_common", "c18_helpers", "resolve"],
+        # guess_edition carries the variation lemma: a single candidate edition is always guessed, so a variation spelling normalises to the canonical one
+        "functions": ["models.ResourceCitation.corrected_reporter", "models.Edition.includes_year", "models.ResourceCitation.guess_edition"],
         "extra": [_c16_extra],
         "assumptions": [A_HASH, "E-HASH: json.dumps(sort_keys=True, default=str) is injective on the hashed dictionaries",
                         "case citations carry 'page' and 'reporter' groups (reporters-db guarantee quoted in CaseCitation.__hash__'s docstring)",
@@ -192,6 +203,7 @@ PROPS = {
         "not_covered": ["the html cleaner (two lxml calls; the visible-text oracle is a statement about lxml's parser) -- bounded stand-in only"],
     },
     "C17": {
+        "pins": ['models.CitationBase.__post_init__', 'models.ResourceCitation.__post_init__', 'helpers.get_court_by_paren'],
         "contracts": OFFSET_CONTRACTS,
         "functions": OFFSET_FUNCS + ["models.FullCaseCitation.is_parallel_citation"],
         "assumptions": [PART_ASSUMPTION, NONL_ASSUMPTION, REGEX_LEMMAS,
@@ -205,6 +217,7 @@ PROPS = {
                         "joint extent of parallel citations is covered by the equality of full-span starts (copies_when_joined), not by a substring clause"],
     },
     "C18": {
+        "pins": ['models.CitationBase.__post_init__', 'models.ResourceCitation.__post_init__', 'helpers.get_court_by_paren'],
         "contracts": OFFSET_CONTRACTS,
         "functions": ["helpers.get_year", "models.Edition.includes_year", "models.ResourceCitation.guess_edition",
                       "helpers.disambiguate_reporters", "models.FullCaseCitation.is_parallel_citation"] + OFFSET_FUNCS,
